@@ -23,7 +23,7 @@ META = {
     "design_ref": "DESIGN.md 4 (C09), design/C09.md",
 }
 
-GEN_MODULES = ["Gen/Mappers.v"]
+GEN_MODULES = ["Gen/Mappers.v", "Gen/Options.v"]
 
 
 def coq_str(s):
@@ -160,13 +160,278 @@ Print corr_bad. Print enum_bad. Print mon_bad. Print model_mon_bad.
     ctx.model_mon_bad_mappers = model_mon_bad
 
 
+
+# ---------------------------------------------------------------------------------------------- (ii) options
+VAL = {"n": "VNil", "s": "VSet", "b": "VBad", "e": "VEmpty"}
+
+
+def parse_option_table():
+    """names / can_err flags of the extracted option table (Gen/Options.v)"""
+    txt = open(os.path.join(vcheck.COQ, "Gen", "Options.v")).read()
+    return [(m.group(1), m.group(2) == "true", m.group(3) == "true")
+            for m in re.finditer(r'mk_opt "(\w+)" \[.*?\] (true|false) (true|false)', txt)]
+
+
+def gen_option_cases(c, table):
+    rng = c.rng
+    names = [t[0] for t in table]
+    canerr = [t[0] for t in table if t[1]]
+    cases = []
+
+    def val_ok(n, v):
+        # WithTimeoutStrategy(ctx, nil) wraps the nil strategy in a non-nil timer (see design/C09.md, open observation):
+        # not generated; "e" only means something for the genesis
+        if n == "WithTimeoutStrategy" and v == "n":
+            return "s"
+        if v == "e" and n != "WithGenesis":
+            return "s"
+        return v
+
+    def shuffled(l):
+        l = list(l)
+        for i in range(len(l) - 1, 0, -1):
+            j = rng.below(i + 1)
+            l[i], l[j] = l[j], l[i]
+        return l
+
+    def add(kind, ctor, ci, opts):
+        cases.append({"id": len(cases), "kind": kind, "ctor": ctor, "chain_init": ci, "opts": [(n, val_ok(n, v)) for n, v in opts]})
+
+    full = [(n, "s") for n in names]
+    for ctor in ("N", "M"):
+        for ci in (0, 1):
+            add("full", ctor, ci, shuffled(full))
+            add("empty", ctor, ci, [])
+        for n in names:
+            add("minus-one", ctor, rng.below(2), shuffled([o for o in full if o[0] != n]))
+            add("one-nil", ctor, rng.below(2), shuffled([(m, "n" if m == n else "s") for m, _ in full]))
+        for n in canerr:
+            base = shuffled([o for o in full if o[0] != n])
+            for pos in (0, len(base) // 2, len(base)):
+                add("one-bad", ctor, rng.below(2), base[:pos] + [(n, "b")] + base[pos:])
+            add("one-bad-missing-others", ctor, 0, [(n, "b")] + shuffled(full)[:5])
+        add("all-bad", ctor, 0, shuffled([o for o in full if o[0] not in canerr]) + [(n, "b") for n in canerr])
+        add("bad-then-good", ctor, 0, [(n, "b") for n in canerr] + shuffled(full))
+        for ci in (0, 1):
+            add("empty-genesis", ctor, ci, shuffled([(m, "e" if m == "WithGenesis" else "s") for m, _ in full]))
+        add("signer-without-action-store", ctor, 1, shuffled([o for o in full if o[0] != "WithActionStore"]))
+        add("nil-signer-without-action-store", ctor, 1, shuffled([(m, "n" if m == "WithSigner" else "s") for m, _ in full if m != "WithActionStore"]))
+    n_random = 150 if c.tier == "quick" else 4000
+    for _ in range(n_random):
+        ctor = "N" if rng.chance(1, 2) else "M"
+        keep = rng.choice([3, 6, 8, 9, 10])      # out of 10
+        opts = []
+        for n in names:
+            if rng.below(10) < keep:
+                r = rng.below(20)
+                v = "s" if r < 14 else "n" if r < 18 else "b" if r < 19 else "e"
+                opts.append((n, v))
+                if rng.chance(1, 12):             # the same option twice (the later value wins)
+                    opts.append((n, rng.choice(["s", "n", "b"])))
+        add("random", ctor, rng.below(2), shuffled(opts))
+    for _ in range(40 if c.tier == "quick" else 400):
+        opts = [(rng.choice(names), rng.choice(["s", "s", "n", "b"])) for _ in range(rng.below(4))]
+        add("tiny", "N" if rng.chance(1, 2) else "M", rng.below(2), opts)
+    return cases
+
+
+def case_line(cs):
+    spec = ",".join("%s=%s" % (n, v) for n, v in cs["opts"]) or "-"
+    return "%d %s %d %s" % (cs["id"], cs["ctor"], cs["chain_init"], spec)
+
+
+def run_option_cases(c, ctx, cases):
+    """runs the harness; a process crash (background goroutine panic) is attributed to the case in progress"""
+    obs, crashes = {}, {}
+    todo = list(cases)
+    restarts = 0
+    while todo and restarts < 60:
+        p = subprocess.run([ctx.binary, "options"], input="\n".join(case_line(x) for x in todo) + "\n",
+                           stdout=subprocess.PIPE, stderr=subprocess.PIPE, text=True, env=vcheck.goenv(), timeout=1200)
+        begun = None
+        for line in p.stdout.splitlines():
+            f = line.split(" ", 2)
+            if f[0] == "B":
+                begun = int(f[1])
+            elif len(f) >= 2 and f[0].isdigit():
+                obs[int(f[0])] = (f[1], f[2] if len(f) > 2 else "")
+        if p.returncode == 0:
+            break
+        restarts += 1
+        if begun is None or begun in obs:
+            c.fail_obligation("harness-run options", "harness died (rc=%s) outside a case: %s" % (p.returncode, p.stderr[-400:]))
+            break
+        head = [l for l in p.stderr.splitlines() if l.strip()][:2]
+        crashes[begun] = {"exit_status": p.returncode, "stderr_head": head}
+        obs[begun] = ("C", " ".join(head)[:160])
+        ids = [x["id"] for x in todo]
+        todo = todo[ids.index(begun) + 1:]
+    return obs, crashes
+
+
+def proj_obs(o):
+    """harness line -> (code, names): 0 panic/crash, 1 error, 2 running+serving, 3 running but wedged"""
+    k, rest = o
+    if k in ("P", "C"):
+        return 0, []
+    if k == "E":
+        return 1, [x for x in rest.split(",") if x.startswith("With")]
+    if k == "R":
+        return (2 if rest.startswith("Feedback") and "+" not in rest else 3), []
+    return 9, []
+
+
+def coq_case(cs, o, idx):
+    """option names are written as indexes into the generated option table (string literals are slow to parse)"""
+    code, names = o
+    return "(%d, (%s, %s), [%s], (%d, [%s]))" % (
+        cs["id"], "true" if cs["ctor"] == "N" else "false", "true" if cs["chain_init"] else "false",
+        "; ".join("(%d, %s)" % (idx[n], VAL[v]) for n, v in cs["opts"]), code, "; ".join(str(idx.get(n, 999)) for n in names))
+
+
+OPTIONS_EVAL = """From Coq Require Import List NArith String Bool.
+From GV Require Import Model.OptTypes Model.Options Gen.Options Monitors.C09m.
+Import ListNotations.
+Definition nm (i : nat) : string := nth i (map o_name option_table) "?"%%string.
+Definition cases : list (nat * (bool * bool) * list (string * argval) * (nat * list string)) :=
+  map (fun r : nat * (bool * bool) * list (nat * argval) * (nat * list nat) =>
+         let '(id, b, opts, (code, names)) := r in
+         (id, b, map (fun p => (nm (fst p), snd p)) opts, (code, map nm names))) [%s].
+Fixpoint dedup (l : list string) : list string :=
+  match l with [] => [] | x :: t => x :: filter (fun y => negb (String.eqb x y)) (dedup t) end.
+Definition ctor_of (isnew : bool) := if isnew then ctor_New else ctor_NewMirror.
+Definition model (isnew ci : bool) (opts : list (string * argval)) : nat * list string :=
+  let o := obs_of (run_ctor (ctor_of isnew) option_table ci opts) in (fst o, dedup (snd o)).
+Definition obs_eqb (a b : nat * list string) : bool :=
+  Nat.eqb (fst a) (fst b) && (if list_eq_dec string_dec (snd a) (snd b) then true else false).
+Definition corr_bad := Eval vm_compute in flat_map (fun r => let '(id, (isnew, ci), opts, obs) := r in
+  if obs_eqb (model isnew ci opts) obs then [] else [(id, fst (model isnew ci opts))]) cases.
+Definition mon_bad := Eval vm_compute in flat_map (fun r => let '(id, (isnew, ci), opts, obs) := r in
+  if ctor_mon_for (ctor_of isnew) (negb isnew) ci option_table opts obs then [] else [(id, 0)]) cases.
+Definition model_mon_bad := Eval vm_compute in flat_map (fun r => let '(id, (isnew, ci), opts, _) := r in
+  if ctor_mon_for (ctor_of isnew) (negb isnew) ci option_table opts (model isnew ci opts) then [] else [(id, 0)]) cases.
+Definition nontrivial := Eval vm_compute in List.length (filter (fun r => let '(_, (isnew, ci), opts, _) := r in
+  negb (Nat.eqb (fst (model isnew ci opts)) 1) || negb (is_nil_list (rejected_opts option_table opts))) cases).
+Print corr_bad. Print mon_bad. Print model_mon_bad. Print nontrivial.
+"""
+
+
+def missing_for_key(cs, table, o):
+    """a stable key for a monitor failure: what the caller was entitled to and did not get"""
+    code, names = o
+    ctor = "New" if cs["ctor"] == "N" else "NewMirror"
+    if code == 0:
+        return "ctor-%s-panic" % ctor
+    if code == 3:
+        return "ctor-%s-wedged" % ctor
+    canerr = set(t[0] for t in table if t[1])
+    rejected = [n for n, v in cs["opts"] if v == "b" and n in canerr]
+    lost = [n for n in rejected if n not in names]
+    if lost:
+        return "ctor-%s-unreported-rejected-%s" % (ctor, lost[0])
+    eff = {}
+    for n, v in cs["opts"]:
+        if not (v == "b" and n in canerr):
+            eff[n] = v
+    req = [t[0] for t in table if t[2]]
+    lost = [n for n in req if eff.get(n, "n") == "n" and n not in names]
+    if cs["ctor"] == "M":
+        lost = [n for n in lost if n in ("WithCommittedHeaderStore", "WithMirrorStore", "WithRoundStore", "WithValidatorStore",
+                                         "WithSignatureScheme", "WithHashScheme", "WithCommonMessageSignatureProofScheme",
+                                         "WithGenesis", "WithWatchdog")]
+    if lost:
+        return "ctor-%s-unreported-%s" % (ctor, lost[0])
+    return "ctor-%s-other" % ctor
+
+
+def sub_options(c, ctx):
+    if not ctx.translated:
+        c.fail_obligation("options: no extracted option table", getattr(c, "broken", {}).get("log", ""))
+        return
+    table = parse_option_table()
+    if len(table) < 5:
+        c.fail_obligation("options: option table not parsed", "found %d options" % len(table))
+        return
+    cases = gen_option_cases(c, table)
+    ro = getattr(ctx, "replay_obj", None)
+    if ro and ro.get("sub") == "options" and ro.get("case"):
+        rc = dict(ro["case"])
+        rc["id"] = len(cases)
+        rc["opts"] = [tuple(x) for x in rc["opts"]]
+        cases.append(rc)
+    obs, crashes = run_option_cases(c, ctx, cases)
+    unknown = [(i, o) for i, o in obs.items() if o[0] == "U"]
+    if unknown:
+        c.fail_obligation("options: harness does not know option", "option %s exists in opts.go but harness/c09/options.go cannot build it" % unknown[0][1][1])
+    done = [x for x in cases if x["id"] in obs and obs[x["id"]][0] != "U"]
+    pobs = {x["id"]: proj_obs(obs[x["id"]]) for x in done}
+    corr_bad, mon_bad, model_mon_bad, nontriv = [], [], [], 0
+    idx = {t[0]: i for i, t in enumerate(table)}
+    shard = 400
+    for si in range(0, len(done), shard):
+        sh = done[si:si + shard]
+        ok, cout = c.coq_eval("c09_options_%d" % (si // shard), OPTIONS_EVAL % ";\n".join(coq_case(x, pobs[x["id"]], idx) for x in sh))
+        if not ok:
+            c.fail_obligation("cases-eval options", cout[-1500:])
+            return
+        corr_bad += pairs(cout, "corr_bad") or []
+        mon_bad += [a for a, _ in (pairs(cout, "mon_bad") or [])]
+        model_mon_bad += [a for a, _ in (pairs(cout, "model_mon_bad") or [])]
+        m = re.search(r"nontrivial\s*=\s*(\d+)", cout)
+        nontriv += int(m.group(1)) if m else 0
+    byid = {x["id"]: x for x in cases}
+    kinds = {}
+    for x in done:
+        kinds[x["kind"]] = kinds.get(x["kind"], 0) + 1
+    codes = {}
+    for i, o in pobs.items():
+        codes[o[0]] = codes.get(o[0], 0) + 1
+    c.coverage["options"] = {
+        "evaluations": len(done), "distinct_nontrivial": len(set(case_line(x).split(" ", 1)[1] for x in done)),
+        "cases_running_or_rejecting": nontriv,
+        "rule": "option lists for tmengine.New (N) and tmengine.NewMirror (M): complete sets in random order, minus one, one nil, "
+                "one rejected value at three positions, empty genesis, signer/action-store, random subsets with duplicates and "
+                "nil/rejected values, tiny lists; on an initialised and an uninitialised chain; after a successful construction "
+                "one vote message is sent through AcceptAllValidFeedbackMapper (liveness probe) and the instance is shut down",
+        "case_kinds": kinds, "observed_outcomes(0=panic,1=error,2=running,3=wedged)": codes,
+        "process_crashes": len(crashes), "traces_validated_against_impl": len(done),
+        "correspondence_disagreements": len(corr_bad), "monitor_failures_on_impl": len(mon_bad),
+    }
+    c.samples += [{"option_case": case_line(byid[i]), "observed": list(obs[i])} for i in [0, 1, len(cases) // 2]]
+    reported = set()
+    for i in mon_bad:
+        cs = byid[i]
+        key = missing_for_key(cs, table, pobs[i])
+        if key in reported:
+            continue
+        reported.add(key)
+        what = "real tmengine.%s: %s for options [%s] chain_init=%d" % (
+            "New" if cs["ctor"] == "N" else "NewMirror",
+            {0: "PANIC/CRASH " + obs[i][1][:120], 1: "error names only [%s]" % obs[i][1], 2: "returned a running instance",
+             3: "instance does not serve: " + obs[i][1]}.get(pobs[i][0], "?"), case_line(cs).split(" ", 3)[3], cs["chain_init"])
+        c.report(key, what, {"sub": "options", "case": {k: cs[k] for k in ("kind", "ctor", "chain_init", "opts")},
+                             "observed": list(obs[i]), "crash": crashes.get(i),
+                             "how": "echo '%s' | bin/h_c09 options" % case_line(cs)})
+        ctx.found_violation_for_broken = True
+        if len(reported) >= 6:
+            break
+    bad_corr_only = [(i, m) for i, m in corr_bad if i not in mon_bad]
+    if bad_corr_only:
+        i, m = bad_corr_only[0]
+        c.fail_obligation("correspondence Model/Options.v+Gen/Options.v vs tmengine.New/NewMirror",
+                          "model outcome %d, real outcome %s on: %s (%d cases differ)" % (m, list(obs[i]), case_line(byid[i]), len(bad_corr_only)),
+                          {"sub": "options", "case": {k: byid[i][k] for k in ("kind", "ctor", "chain_init", "opts")},
+                           "how": "echo '%s' | bin/h_c09 options" % case_line(byid[i])})
+    ctx.model_mon_bad_options = [case_line(byid[i]) for i in model_mon_bad[:3]]
+
+
 MODEL_OBS_DEF = """Definition fb_name (fb : N) : string :=
   match find (fun p => N.eqb (fst p) fb) names_Feedback with Some p => snd p | None => "?"%string end.
 Definition model_obs (r : res N) : option string :=
   match r with Ok fb => Some (fb_name fb) | Panic _ => None end.
 """
 
-SUBCHECKS = [sub_mappers]
+SUBCHECKS = [sub_mappers, sub_options]
 
 
 def main(argv):
@@ -205,7 +470,8 @@ def main(argv):
     if not ctx.proved and not any(v[3] for v in c.violations) and not c.known_seen:
         b = getattr(c, "broken", {"file": "?", "log": ""})
         c.fail_obligation("Properties/C09.v (%s)" % b["file"], b["log"],
-                          {"model_monitor_failures": {"mappers": getattr(ctx, "model_mon_bad_mappers", None)}})
+                          {"model_monitor_failures": {"mappers": getattr(ctx, "model_mon_bad_mappers", None),
+                                                      "options": getattr(ctx, "model_mon_bad_options", None)}})
     tot_eval = sum(v.get("evaluations", 0) for v in c.coverage.values() if isinstance(v, dict))
     tot_nt = sum(v.get("distinct_nontrivial", 0) for v in c.coverage.values() if isinstance(v, dict))
     tot_tr = sum(v.get("traces_validated_against_impl", 0) for v in c.coverage.values() if isinstance(v, dict))
